@@ -83,9 +83,7 @@ pub fn write<S: Sim>(prop: &str, tier: Tier, seed: u64, workers: usize, res: &Ch
                     if let (Some(a), Some(b)) = (doc["violations"].as_u64(), v["violations"].as_u64()) {
                         doc["violations"] = json!(a + b);
                     }
-                    if tag == "py" {
-                        doc["coverage"]["components"]["real"] = json!(["lightmotif", "lightmotif-io (all four readers and their nom parsers)", "std::io::BufReader / read_until / read_line", "lightmotif-py (Loader, PyFileRead, motif conversion) inside an embedded CPython 3.11"]);
-                    }
+                    doc["coverage"][key]["components"] = c["components"].clone();
                 }
                 let _ = std::fs::remove_file(&side);
             }
